@@ -80,6 +80,12 @@ VecIdxOK == \A n \in 0..6 : \A inc \in IncSet :
               /\ \A k, l \in 1..n : P!VecIdx(k, n, inc) = P!VecIdx(l, n, inc) => k = l
               /\ n > 0 => (inc > 0 => P!VecIdx(1, n, inc) = 1) /\ (inc < 0 => P!VecIdx(n, n, inc) = 1)
 ASSUME VecIdxOK
+\* the linear-time Lay used by the generator is the VecIdx-defined array
+LayOK == \A n \in 0..6 : \A inc \in IncSet :
+           LET xs == [q \in 1..n |-> 10 + q] IN
+           /\ Len(P!Lay(xs, inc, 777)) = Len(P!LayDef(xs, inc, 777))
+           /\ \A p \in 1..Len(P!LayDef(xs, inc, 777)) : P!Lay(xs, inc, 777)[p] = P!LayDef(xs, inc, 777)[p]
+ASSUME LayOK
 
 (* laws of the extended-integer arithmetic tables (IEEE-754 facts the expectations rely on) *)
 Vals == {-3, -1, 0, 1, 2, P!NaN, P!PInf, P!NInf, P!NZero}
